@@ -6,7 +6,7 @@
    length [rlen]; gzip and the msgpack wrapper are section variables (oracles) with their round-trip
    property as explicit hypotheses; the wall clock is an input of every Write op. *)
 From SV Require Import Model.Common Model.ChunkId Model.Packer Spec.ChunkSpec
-                       Proofs.ChunkIdProofs Proofs.PackerProofs.
+                       Proofs.ChunkIdProofs Proofs.PackerProofs Proofs.FeedProofs.
 From Coq Require Import Sorted.
 Open Scope Z_scope.
 
@@ -225,6 +225,57 @@ Theorem C11_receiver_reconstructs :
   = Some (written_of ops).
 Proof. exact receiver_reconstructs_lemma. Qed.
 Print Assumptions C11_receiver_reconstructs.
+
+(* 5. order WITHIN a chunk: how Write feeds the chunk's sink (gzip writer / write buffer; Model/Packer.v, Section
+   Feed).  Follow-up to the wave-4 miss seeded/C11/8.
+
+   5a. The real mechanism (every Write goes to the sink at once): for every list of records, of every length,
+   the sink holds exactly the written records in write order when the chunk is finalized. *)
+Theorem C11_sink_receives_write_order :
+  forall (R : Type) (rlen : R -> Z) (rs : list R), feed_all R rlen FeedDirect rs = rs.
+Proof. exact feed_direct_in_order. Qed.
+Print Assumptions C11_sink_receives_write_order.
+
+(* 5b. the same on bytes and through the compressor: un-gzipping what the compressor produced from its feed gives
+   the concatenation of the records in write order (compressed path: decompress(payload)) *)
+Theorem C11_payload_is_concat :
+  forall (R : Type) (rlen : R -> Z) (rbytes : R -> bytes) (gz gunz : bytes -> bytes),
+  (forall b, gunz (gz b) = b) ->
+  forall rs : list R,
+  gunz (gz (concat (map rbytes (feed_all R rlen FeedDirect rs)))) = concat (map rbytes rs).
+Proof. exact feed_payload_is_concat. Qed.
+Print Assumptions C11_payload_is_concat.
+
+(* 5c. general form, for any batching in front of the sink (capacity [cap], large records bypass the batch
+   buffer): write order is kept for ALL inputs if the buffer is handed over before the bypass, and otherwise
+   for exactly those inputs in which no record reaches the bypass ([bypass_safe]) *)
+Theorem C11_staged_feed_in_order :
+  forall (R : Type) (rlen : R -> Z) (m : feed_mode) (rs : list R),
+  Forall (bypass_safe R rlen m) rs -> feed_all R rlen m rs = rs.
+Proof. exact feed_all_in_order. Qed.
+Print Assumptions C11_staged_feed_in_order.
+
+Theorem C11_staged_flush_first_in_order :
+  forall (R : Type) (rlen : R -> Z) (cap : Z) (rs : list R), feed_all R rlen (FeedStaged cap true) rs = rs.
+Proof. exact feed_staged_flush_first_in_order. Qed.
+Print Assumptions C11_staged_flush_first_in_order.
+
+(* why records below the buffer size never show the seeded variant *)
+Theorem C11_bypass_invisible_below_cap :
+  forall (R : Type) (rlen : R -> Z) (cap : Z) (rs : list R),
+  Forall (fun r => rlen r < cap) rs -> feed_all R rlen (FeedStaged cap false) rs = rs.
+Proof. exact feed_bypass_invisible_below_cap. Qed.
+Print Assumptions C11_bypass_invisible_below_cap.
+
+(* 5d. the seeded variant (64 KiB batch buffer, a record of >= 64 KiB goes to the compressor WITHOUT handing over
+   the smaller records waiting): records of 10 and 65536 bytes reach the sink in reverse order. *)
+Theorem C11_large_record_bypass_variant_refuted :
+  exists rs : list Z,
+    Forall (fun r => 0 <= r) rs /\
+    feed_all Z (fun n => n) (FeedStaged 65536 false) rs = rev rs /\
+    feed_all Z (fun n => n) (FeedStaged 65536 false) rs <> rs.
+Proof. exact feed_bypass_variant_refuted. Qed.
+Print Assumptions C11_large_record_bypass_variant_refuted.
 
 (* Non-vacuity: a concrete run (CompressedPackedForward, 2 records / 100 bytes per chunk; three writes at the
    same clock reading, two flushes, one more write) satisfies the hypotheses of 3d and gives two chunks
